@@ -147,6 +147,20 @@ func vfDrainTx(s *UDPSession) {
 
 func vfIsGSE() bool { return false }
 
+// vfCallMayBlock runs an API call that may block and reports whether it did. gse: the call is
+// executed until it blocks on a select with nothing ready. Native: the call runs in its own
+// goroutine and counts as blocked if it has not returned after a grace period.
+func vfCallMayBlock(f func()) bool {
+	done := make(chan struct{})
+	go func() { defer close(done); f() }()
+	select {
+	case <-done:
+		return false
+	case <-time.After(150 * time.Millisecond):
+		return true
+	}
+}
+
 // ---- native twin of the write-set journal ----
 
 type vfSnap map[unsafe.Pointer]uint64
